@@ -3189,7 +3189,9 @@ def ulp(x):
         return dtype("nan")
     if x < 0:
         return ulp(-x)
-    return numpy.ldexp(dtype(1), numpy.frexp(x)[1] + numpy.finfo(dtype).negep)
+    fi = numpy.finfo(dtype)
+    # the spacing of subnormal numbers is the smallest subnormal number
+    return numpy.ldexp(dtype(1), max(numpy.frexp(x)[1] + fi.negep, fi.minexp + fi.negep + 1))
 
 
 def overlapping(x, y):
